@@ -31,6 +31,7 @@
 namespace vh {
 thread_local int t_bypass = 0;
 Sim g;
+void (*g_tick_hook)(int, const Json::Value&) = nullptr;
 std::atomic<unsigned> g_yield_ppm{0};
 
 static bool starts_with(const std::string& s, const std::string& p) {
@@ -195,6 +196,38 @@ static bool interesting_name(const std::string& n) {
       n == "memory.high" || n == "memory.high.tmp" || n == "memory.reclaim";
 }
 
+// the cgroup's manager removes it (leaf only: rmdir of a cgroup with children fails)
+static void vanish_cgroup(const std::string& dir) {
+  Bypass b;
+  DIR* d = ::opendir(dir.c_str());
+  if (!d) {
+    return;
+  }
+  bool leaf = true;
+  while (struct dirent* de = ::readdir(d)) {
+    struct stat st;
+    std::string n = de->d_name;
+    if (n != "." && n != ".." && ::stat((dir + "/" + n).c_str(), &st) == 0 && S_ISDIR(st.st_mode)) {
+      leaf = false;
+    }
+  }
+  ::closedir(d);
+  if (!leaf) {
+    return;
+  }
+  Json::Value e, ops(Json::arrayValue), op;
+  op["op"] = "rm";
+  if (dir.size() <= g.cgroot.size() + 1 || !starts_with(dir, g.cgroot + "/")) {
+    return;
+  }
+  op["cg"] = dir.substr(g.cgroot.size() + 1);
+  ops.append(op);
+  e["ev"] = "vanish";
+  e["cg"] = op["cg"];
+  ev(e);
+  apply_ops(ops);
+}
+
 } // namespace vh
 
 using namespace vh;
@@ -236,6 +269,15 @@ int kill(pid_t pid, int sig) {
   } else if (ret == 0) {
     g.pending_dead[pc->second].insert(pid);
   }
+  bool vanish = false;
+  if (ret == 0 && pid > 0 && pc != g.pid_cg.end() && g.vanish_after_kill) {
+    // last own process of a leaf cgroup signalled: its manager removes the (transient) cgroup at once
+    size_t own = 0;
+    for (const auto& kv : g.pid_cg) {
+      own += kv.second == pc->second;
+    }
+    vanish = own == g.pending_dead[pc->second].size();
+  }
   Json::Value e;
   e["ev"] = "kill";
   e["pid"] = (Json::Int64)pid;
@@ -248,6 +290,9 @@ int kill(pid_t pid, int sig) {
     e["cg"] = pc->second;
   }
   ev(e);
+  if (vanish) {
+    vanish_cgroup(cg_abs(pc->second));
+  }
   errno = err;
   return ret;
 }
@@ -341,6 +386,9 @@ int sigtimedwait(const sigset_t* set, siginfo_t* info, const struct timespec* ti
   e["ev"] = "tick";
   e["i"] = i;
   ev(e);
+  if (g_tick_hook) {
+    g_tick_hook(i, tk);
+  }
   if ((i & 7) == 7) {
     flush_trace();
   }
@@ -664,6 +712,15 @@ ssize_t write(int fd, const void* buf, size_t n) {
         }
       }
       ev(e);
+      if (g.vanish_after_kill && bn == "cgroup.kill") {
+        ssize_t r = real(fd, buf, n);
+        int saved = errno;
+        if (r > 0) {
+          vanish_cgroup(p.substr(0, p.size() - bn.size() - 1));
+        }
+        errno = saved;
+        return r;
+      }
     }
   }
   return real(fd, buf, n);
